@@ -329,12 +329,30 @@ def dominated_by_success(cfg, facts, call_bb, target_bb):
     return False
 
 
+def return_aliases(body):
+    """locals whose value reaches the return place _0 through whole-value moves only (the return slots of inlined helpers,
+    temporaries): {local}"""
+    out = {0}
+    changed = True
+    while changed:
+        changed = False
+        for bb, j, s in body.stmts():
+            if place_local(s["d"]) in out and not place_proj(s["d"]) and "use" in s["r"]:
+                p = op_place(s["r"]["use"])
+                if p is not None and not place_proj(p) and place_local(p) not in out:
+                    out.add(place_local(p))
+                    changed = True
+    return out
+
+
 def ok_return_blocks(body):
-    """blocks that build the function's Ok(..)/Some(..) return value: Aggregate(Result::Ok) into _0"""
+    """blocks that build the function's Ok(..)/Some(..) return value: Aggregate(Result::Ok) into _0 (or into a local that is
+    moved into _0, as after inlining a helper that produces the result)"""
     out = []
+    rets = return_aliases(body)
     for bb, j, s in body.stmts():
         r = s["r"]
-        if place_local(s["d"]) == 0 and not place_proj(s["d"]) and r.get("agg") == "adt" and r.get("variant") in ("Ok", "Some"):
+        if place_local(s["d"]) in rets and not place_proj(s["d"]) and r.get("agg") == "adt" and r.get("variant") in ("Ok", "Some"):
             out.append((bb, j, s))
     return out
 
